@@ -666,6 +666,7 @@ func init() {
 					us = append(us, c07RaceAccrual(d, cfg, bound-1))
 				}
 			}
+			us = append(us, binaryWithContract())
 			return us
 		},
 	})
